@@ -24,11 +24,14 @@ pub struct Case {
     /// the `Bus` handle itself is dropped before the operation with this index (its outputs live on; later sends are skipped)
     #[serde(default)]
     pub drop_bus_at: Option<usize>,
+    /// finite sources only: this many frames are still index-coded after the source reports exhaustion
+    #[serde(default)]
+    pub tail: u64,
 }
 
 pub fn check(c: &Case, st: &mut Stats) -> CheckResult {
     let counters = Counters::new();
-    let probe: Probe<f64> = Probe::new(c.src_len, counters.clone());
+    let probe: Probe<f64> = Probe::with_tail(c.src_len, c.tail, counters.clone());
     let mut bus = Some(probe.bus());
     let mut bus_dropped_with_lag = false;
     // model
@@ -66,10 +69,7 @@ pub fn check(c: &Case, st: &mut Stats) -> CheckResult {
                 let i = i % live.len();
                 let pos = live[i].1;
                 let got = live[i].0.next();
-                let exp_decode = match c.src_len {
-                    Some(n) if pos >= n => None,
-                    _ => Some(pos),
-                };
+                let exp_decode = Probe::<f64>::expected(c.src_len, c.tail, pos);
                 if pos == p {
                     p += 1;
                 }
@@ -118,6 +118,7 @@ pub fn check(c: &Case, st: &mut Stats) -> CheckResult {
     st.class_if(dropped_unique_slowest, "drop of the unique slowest output");
     st.class_if(reattached, "re-attachment after all outputs were dropped");
     st.class_if(c.src_len.is_some(), "finite source");
+    st.class_if(c.src_len.map_or(false, |n| c.tail > 0 && p > n), "source reports exhaustion while still yielding frames");
     st.class_if(bus_dropped_with_lag && c.drop_bus_at.map_or(false, |k| k < c.ops.len()), "bus handle dropped while an output lags");
     Ok(())
 }
@@ -182,7 +183,7 @@ pub fn case_strategy(max_ops: usize) -> impl Strategy<Value = Case> {
             }
             ops.truncate(max_ops);
             let drop_bus_at = if drop_bus % 4 == 0 && !ops.is_empty() { Some((drop_bus / 4) % ops.len()) } else { None };
-            Case { src_len, max_live, ops, drop_bus_at }
+            Case { src_len, max_live, ops, drop_bus_at, tail: (drop_bus % 3) as u64 * 2 }
         })
     })
 }
@@ -190,27 +191,28 @@ pub fn case_strategy(max_ops: usize) -> impl Strategy<Value = Case> {
 pub fn run(ctx: &mut Ctx) {
     ctx.set_rule(
         "cases are (source length or infinite, limit on simultaneously live outputs, sequence of send / next(output i) / drop(output i)); every applicable operation sequence of \
-         every length up to 9 (thorough 11) over at most 3 live outputs, generated constructively, against an infinite and a 3-frame source; proptest sequences of up to 300 operations over up to 6 live \
+         every length up to 9 (thorough 11) over at most 3 live outputs, generated constructively, against an infinite source, a 3-frame source, and a source that reports exhaustion after 1 frame but keeps yielding 3 more index-coded frames; proptest sequences of up to 300 operations over up to 6 live \
          outputs with run-length structure (lock-step stretches, one output racing ahead, drops, re-attachment); in a quarter of the random cases, and after the last send of every enumerated sequence, the Bus handle itself is dropped while its outputs live on; non-trivial: a send while another output lags, a drop of the unique slowest \
          output, or re-attachment after every output was dropped",
     );
     ctx.assume("model: P = frames pulled from the source, one absolute position per live output (initialised to P at send); after EVERY operation: probe pull count == P, pending_frames == P - position, is_exhausted, and (via the cfg(rustaudio_dasp_verif) hook Bus::verif_backlog_len) backlog == P - min position");
-    for c in ["send while another output lags", "drop of the unique slowest output", "re-attachment after all outputs were dropped", "bus handle dropped while an output lags"] {
+    for c in ["send while another output lags", "drop of the unique slowest output", "re-attachment after all outputs were dropped", "bus handle dropped while an output lags", "source reports exhaustion while still yielding frames"] {
         ctx.require_class(c);
     }
     let max_len = ctx.pick(9usize, 11);
     let mut cases = Vec::new();
     for len in 0..=max_len {
         for ops in all_sequences(len, 3) {
-            cases.push(Case { src_len: None, max_live: 3, ops: ops.clone(), drop_bus_at: None });
+            cases.push(Case { src_len: None, max_live: 3, ops: ops.clone(), drop_bus_at: None, tail: 0 });
             if len <= max_len - 1 {
-                cases.push(Case { src_len: Some(3), max_live: 3, ops: ops.clone(), drop_bus_at: None });
+                cases.push(Case { src_len: Some(3), max_live: 3, ops: ops.clone(), drop_bus_at: None, tail: 0 });
+                cases.push(Case { src_len: Some(1), max_live: 3, ops: ops.clone(), drop_bus_at: None, tail: 3 });
             }
             // the Bus handle goes out of scope right after the last send
             if len <= max_len - 1 {
                 if let Some(last_send) = ops.iter().rposition(|o| *o == Op::Send) {
                     if last_send + 1 < ops.len() {
-                        cases.push(Case { src_len: None, max_live: 3, ops, drop_bus_at: Some(last_send + 1) });
+                        cases.push(Case { src_len: None, max_live: 3, ops, drop_bus_at: Some(last_send + 1), tail: 0 });
                     }
                 }
             }
